@@ -523,7 +523,10 @@ def vi_atom(r, nlines):
     if t < 61:
         # macros: put commands into a register and run them, with counts (fills the 4096-byte input queue)
         body = r.choice([b'x', b'ix\x1b', b'dw', b'j.', b'@a', b'.', b'A\xc3\xa9\x1b', b'3l', b'yyp'])
-        return b'o' + body.replace(b'\x1b', ctl('v') + b'\x1b') + ESC + b'"add' + r.choice([b'', b'3', b'50', b'999', b'5000']) + b'@a'
+        cnt = r.choice([b'', b'3', b'50', b'999', b'5000'])
+        if body == b'yyp' and len(cnt) > 2:     # a thousand new lines make every later :g quadratic (slow, not hung)
+            cnt = b'50'
+        return b'o' + body.replace(b'\x1b', ctl('v') + b'\x1b') + ESC + b'"add' + cnt + b'@a'
     if t < 62:
         return r.choice([b'"', b'd', b'c', b'y', b'g', b'z', b'm', b"'", b'f', b'r', b'!', ctl('w'), b'@', b'Z', b'"a', b'2d', b'd2']) + ESC
     return vi_excmd(r, nlines)
